@@ -202,6 +202,11 @@ struct ReqCase {
     st: St,
     role: Role,
     kind: Kind,
+    /// the request under test carries the transaction id of a GENUINE authenticated request the
+    /// known peer sent (and had answered) just before: transaction ids travel in the clear, so
+    /// anyone can copy one; whatever the agent remembers about verified transactions must not let
+    /// an unauthenticated request through
+    reuse_txid: bool,
 }
 
 #[derive(Clone, Copy, Debug, PartialEq, Eq)]
@@ -238,6 +243,9 @@ impl ReqCase {
         if self.kind != Kind::Udp {
             v["socket"] = json!(self.kind.name());
         }
+        if self.reuse_txid {
+            v["reuse_txid"] = json!(true);
+        }
         v
     }
 }
@@ -271,6 +279,7 @@ impl Case {
                     Some(k) => Kind::parse(k)?,
                     None => Kind::Udp,
                 },
+                reuse_txid: v["reuse_txid"].as_bool().unwrap_or(false),
             })),
             "response" => Some(Case::Resp(RespCase {
                 class: RClass::parse(s("class")?)?,
@@ -1369,11 +1378,30 @@ async fn run_req(c: ReqCase, attempt: u32) -> Result<Outcome, String> {
             return Err("the stranger's connection was not attached by a routable first frame".into());
         }
     }
+    let mut copied: Option<[u8; 12]> = None;
+    if c.reuse_txid {
+        // a genuine, authenticated check without USE-CANDIDATE from the known peer, answered before
+        // the snapshot is taken (so whatever IT changes is not attributed to the request under test)
+        let gtag = if c.kind.is_tcp() { 'T' } else { 'P' };
+        if c.kind.is_tcp() && gtag != tag {
+            env.tcp_connect(gtag).await?;
+        }
+        let gx = env.next_txid();
+        let genuine = build_request(&gx, User::Right, Mi::Correct, 0, Fp::Good, false, Env::genuine_attr(c.role), &env.creds);
+        env.send_from(gtag, &genuine).await?;
+        let _ = env.barrier(c.role, gtag).await;
+        env.poll(Duration::from_millis(0)).await;
+        if !env.inbox.iter().any(|(t, p, _)| *t == gtag && p.txid == gx && p.typ == T_BINDING_OK) {
+            return Err("the genuine request whose transaction id is to be copied was not answered".into());
+        }
+        copied = Some(gx);
+    }
     let before = env.snapshot();
     let before_b = env.snapshot_bystander();
     let _ = env.nom_rx.borrow_and_update();
-    let txid = env.next_txid();
+    let txid = copied.unwrap_or_else(|| env.next_txid());
     let bytes = build_request(&txid, c.user, c.mi, c.flip, c.fp, c.uc, c.attr, &env.creds);
+    let inbox_before = env.inbox.len();
     env.send_from(tag, &bytes).await?;
     let barrier_ok = env.barrier(c.role, tag).await;
     if !barrier_ok {
@@ -1389,6 +1417,7 @@ async fn run_req(c: ReqCase, attempt: u32) -> Result<Outcome, String> {
     let answer = env
         .inbox
         .iter()
+        .skip(inbox_before)
         .find(|(t, p, _)| *t == tag && p.txid == txid && (p.typ == T_BINDING_OK || p.typ == T_BINDING_ERR))
         .map(|(_, p, _)| if p.typ == T_BINDING_OK { "success".to_string() } else { format!("error-{}", p.error_code.unwrap_or(0)) })
         .unwrap_or_else(|| "none".to_string());
@@ -1421,6 +1450,9 @@ async fn run_req(c: ReqCase, attempt: u32) -> Result<Outcome, String> {
     );
     if c.kind != Kind::Udp {
         signature.push_str(&format!(";kind={}", c.kind.name()));
+    }
+    if c.reuse_txid {
+        signature.push_str(";txid=copied-from-a-verified-request");
     }
     Ok(Outcome {
         case: Case::Req(c),
@@ -1705,7 +1737,7 @@ fn enumerate(tier: vh::Tier) -> Vec<Case> {
                                         // in the product the bit-flip class is represented by its two extreme positions
                                         let flips: &[u8] = if mi == Mi::BitFlip { &[0, 159] } else { &[0] };
                                         for &flip in flips {
-                                            v.push(Case::Req(ReqCase { user, mi, flip, fp, uc, attr, src, st, role, kind }));
+                                            v.push(Case::Req(ReqCase { user, mi, flip, fp, uc, attr, src, st, role, kind, reuse_txid: false }));
                                         }
                                     }
                                 }
@@ -1732,7 +1764,31 @@ fn enumerate(tier: vh::Tier) -> Vec<Case> {
             st: St::New,
             role: Role::Controlled,
             kind: Kind::Udp,
+            reuse_txid: false,
         }));
+    }
+    // copied transaction ids: every unauthenticated credential combination again, carrying the id of a
+    // genuine request that was verified and answered a moment earlier
+    for &kind in &[Kind::Udp, Kind::Mux, Kind::Tcp] {
+        for &st in &[St::Checking, St::ConnPending, St::Connected] {
+            for &role in Role::ALL {
+                if !state_exists(kind, st, role) || (quick && kind != Kind::Udp && st != St::Checking) {
+                    continue;
+                }
+                for &src in &[Src::Known, Src::Stranger] {
+                    for &user in &[User::None, User::Wrong, User::Right] {
+                        for &mi in &[Mi::Absent, Mi::Random, Mi::RemotePwd, Mi::ThirdKey, Mi::BitFlip] {
+                            for uc in [true, false] {
+                                if quick && !uc && mi != Mi::Absent {
+                                    continue;
+                                }
+                                v.push(Case::Req(ReqCase { user, mi, flip: 0, fp: Fp::Good, uc, attr: Env::genuine_attr(role), src, st, role, kind, reuse_txid: true }));
+                            }
+                        }
+                    }
+                }
+            }
+        }
     }
     for &st in &[St::Checking, St::ConnPending, St::Connected] {
         for &role in Role::ALL {
@@ -1977,6 +2033,7 @@ fn main() {
     let violating_cases = outs.iter().filter(|o| o.violates).count();
     rep.set("evaluations", outs.len() as u64);
     rep.set("request_cases", n_req as u64);
+    rep.set("request_cases_with_a_copied_verified_transaction_id", outs.iter().filter(|o| matches!(o.case, Case::Req(c) if c.reuse_txid)).count() as u64);
     rep.set("response_cases", n_resp as u64);
     rep.set("judged_unauthenticated_requests", judged_req as u64);
     rep.set("judged_non_outstanding_responses", nonlive_resp);
